@@ -85,6 +85,10 @@ type Session interface {
 	// Parse feeds toks (then end-of-input tokens forever) to the parser.
 	// failAt >= 0 makes the failAt-th action call return an error.
 	Parse(toks []PTok, failAt int, renderErr bool) ParseObs
+	// ParseNested is Parse(toks, -1, false) during which, inside the nestAt-th
+	// action call, ANOTHER parser object of the same package parses inner
+	// completely. The observation is that of the outer parse only.
+	ParseNested(toks []PTok, nestAt int, inner []PTok) ParseObs
 }
 
 type Parser interface {
